@@ -12,10 +12,11 @@ Lemma closed_silent pr st m :
 Proof.
   intros Hc. destruct m; simpl; rewrite ?Hc; simpl; auto.
   - unfold exec_flush. destruct (find_op t (s_ops st)) as [o|]; simpl; auto.
-    destruct (o_kind o); simpl; unfold emit; rewrite Hc; auto.
+    destruct (o_kind o); simpl; unfold emit; rewrite Hc; auto. destruct (o_cancelled o); auto.
   - unfold exec_return. destruct (find_op t (s_ops st)) as [o|]; simpl; auto.
     destruct (o_kind o); simpl; unfold emit; rewrite Hc; simpl; auto.
-    destruct (o_cancelled o && negb again); simpl; auto.
+    + destruct (o_cancelled o && negb again); simpl; auto.
+    + destruct (o_cancelled o); simpl; rewrite ?Hc; auto.
   - destruct pr; simpl; auto. destruct (s_timer st); simpl; auto. unfold do_close. rewrite Hc. simpl. auto.
   - rewrite andb_false_r. auto.
 Qed.
@@ -133,11 +134,12 @@ Proof.
         done_open. split; auto.
     + apply sim_close with (c := ctx_close [4401] true); close_side.
   - (* complete *)
-    destruct (active st i) eqn:A; [|discriminate].
-    unfold handle_tws, stop_subscription, emit. rewrite Hc. unfold mon_step. simpl.
-    rewrite Hact, A. simpl. done_open. split; auto.
-    intros j. rewrite mem_del, Hact. unfold active, cancel_id, set_ops. simpl.
-    rewrite active_cancel_some. reflexivity.
+    unfold handle_tws, stop_subscription. destruct (active st i) eqn:A.
+    + unfold emit. rewrite Hc. unfold mon_step. simpl.
+      rewrite Hact, A. simpl. done_open. split; auto.
+      intros j. rewrite mem_del, Hact. unfold active, cancel_id, set_ops. simpl.
+      rewrite active_cancel_some. reflexivity.
+    + unfold mon_step. simpl. done_open. split; auto.
   - (* start: not a transport-ws type *)
     apply sim_close with (c := ctx_close [4400] true); close_side.
   - apply sim_close with (c := ctx_close [4400] true); close_side.
@@ -151,7 +153,7 @@ Proof.
   - (* flush *)
     unfold exec_flush. destruct (find_op t (s_ops st)) as [o|] eqn:F.
     + destruct (o_kind o) eqn:K.
-      * destruct (o_cancelled o) eqn:C; [discriminate|].
+      * destruct (o_cancelled o) eqn:C; [unfold mon_step; simpl; done_open; split; auto|].
         unfold emit. rewrite Hc. unfold mon_step. simpl.
         rewrite Hact. unfold active. rewrite (active_of_live _ _ _ F C). done_open. split; auto.
       * unfold mon_step. simpl. done_open. split; auto.
@@ -160,13 +162,15 @@ Proof.
     unfold exec_return. destruct (find_op t (s_ops st)) as [o|] eqn:F.
     + destruct (o_kind o) eqn:K.
       * destruct (o_cancelled o) eqn:C.
-        -- destruct r; try discriminate. unfold emit. rewrite Hc. unfold mon_step. simpl.
+        -- unfold emit. rewrite Hc. unfold mon_step. simpl.
            destruct again; simpl; (done_open; split; auto). intros j. rewrite Hact. unfold active, set_ops; simpl.
            rewrite (active_remove_cancelled _ _ _ j W1 F C). reflexivity.
-        -- destruct r; try discriminate; unfold emit; rewrite Hc; unfold mon_step; simpl.
+        -- destruct r; [| |rewrite F, K, C in Hoff; discriminate]; unfold emit; rewrite Hc; unfold mon_step; simpl.
            ++ done_open. split; auto.
            ++ rewrite Hact. unfold active. rewrite (active_of_live _ _ _ F C). done_open. split; auto.
-      * destruct (o_cancelled o) eqn:C; [discriminate|].
+      * destruct (o_cancelled o) eqn:C.
+        { unfold mon_step. simpl. done_open. split; auto. intros j. rewrite Hact. unfold active, set_ops; simpl.
+          rewrite (active_remove_cancelled _ _ _ j W1 F C). reflexivity. }
         assert (Hlive : mem (o_id o) act = true).
         { rewrite Hact. unfold active. apply (active_of_live _ _ _ F C). }
         assert (Hafter : forall j, mem j (del (o_id o) act) =
@@ -248,11 +252,12 @@ Proof.
     + unfold mon_step. simpl. rewrite andb_false_r. simpl. done_open. split; auto.
     + unfold mon_step. simpl. rewrite andb_false_r. simpl. done_open. split; auto.
   - (* stop *)
-    destruct (active st i) eqn:A; [|discriminate].
-    unfold handle_gws, stop_subscription, emit. rewrite Hc. unfold mon_step. simpl.
-    rewrite (Hact i A). simpl. done_open. split; auto.
-    intros j. unfold active, cancel_id, set_ops. simpl. rewrite active_cancel_some, mem_del.
-    intros H. apply andb_true_iff in H. destruct H as [H1 H2]. rewrite H2, (Hact j H1). reflexivity.
+    unfold handle_gws, stop_subscription. destruct (active st i) eqn:A.
+    + unfold emit. rewrite Hc. unfold mon_step. simpl.
+      rewrite (Hact i A). simpl. done_open. split; auto.
+      intros j. unfold active, cancel_id, set_ops. simpl. rewrite active_cancel_some, mem_del.
+      intros H. apply andb_true_iff in H. destruct H as [H1 H2]. rewrite H2, (Hact j H1). reflexivity.
+    + unfold mon_step. simpl. done_open. split; auto.
   - (* connection_terminate *)
     unfold handle_gws, mon_step. simpl. done_open. split; auto.
     intros j. unfold active, terminate_all, set_ops. simpl. rewrite active_cancel_all. discriminate.
@@ -263,7 +268,7 @@ Proof.
   - (* flush *)
     unfold exec_flush. destruct (find_op t (s_ops st)) as [o|] eqn:F.
     + destruct (o_kind o) eqn:K.
-      * destruct (o_cancelled o) eqn:C; [discriminate|].
+      * destruct (o_cancelled o) eqn:C; [unfold mon_step; simpl; done_open; split; auto|].
         unfold emit. rewrite Hc. unfold mon_step. simpl.
         rewrite (Hact _ (active_of_live _ _ _ F C)). done_open. split; auto.
       * unfold mon_step. simpl. done_open. split; auto.
@@ -272,13 +277,15 @@ Proof.
     unfold exec_return. destruct (find_op t (s_ops st)) as [o|] eqn:F.
     + destruct (o_kind o) eqn:K.
       * destruct (o_cancelled o) eqn:C.
-        -- destruct r; try discriminate. unfold emit. rewrite Hc. unfold mon_step. simpl.
+        -- unfold emit. rewrite Hc. unfold mon_step. simpl.
            destruct again; simpl; (done_open; split; auto). intros j. unfold active at 1. unfold set_ops; simpl.
            rewrite (active_remove_cancelled _ _ _ j W1 F C). apply Hact.
-        -- destruct r; try discriminate; unfold emit; rewrite Hc; unfold mon_step; simpl.
+        -- destruct r; [| |rewrite F, K, C in Hoff; discriminate]; unfold emit; rewrite Hc; unfold mon_step; simpl.
            ++ done_open. split; auto.
            ++ rewrite (Hact _ (active_of_live _ _ _ F C)). done_open. split; auto.
-      * destruct (o_cancelled o) eqn:C; [discriminate|].
+      * destruct (o_cancelled o) eqn:C.
+        { unfold mon_step. simpl. done_open. split; auto. intros j. unfold active at 1. unfold set_ops; simpl.
+          rewrite (active_remove_cancelled _ _ _ j W1 F C). apply Hact. }
         pose proof (Hact _ (active_of_live _ _ _ F C)) as Hlive.
         assert (Hafter : forall j,
                   active (set_ops (cancel_id (o_id o) st) (remove_op t (s_ops (cancel_id (o_id o) st)))) j = true ->
